@@ -335,6 +335,12 @@ impl<'a> PlanBuilder<'a> {
 
         let mut output_plan = Vec::with_capacity(self.plan.len());
 
+        // Operators that have already been added to `output_plan`. An operator
+        // must not be scheduled again if one of its inputs is resolved a second
+        // time, which happens when a value is both a graph input and an output
+        // of a planned operator, or is produced by several planned operators.
+        let mut scheduled_ops: FxHashSet<NodeId> = FxHashSet::default();
+
         // Initialize frontier with all operators that can be executed
         // from initially-available values.
         let mut frontier: Vec<(NodeId, &OperatorNode)> = Vec::new();
@@ -363,6 +369,7 @@ impl<'a> PlanBuilder<'a> {
                 .unwrap_or(0);
             let (next_op_id, op_node) = frontier.remove(op_pos);
             output_plan.push(next_op_id);
+            scheduled_ops.insert(next_op_id);
 
             // Mark the operator's outputs as computed.
             resolved_values.extend(op_node.output_ids().iter().filter_map(|id| *id));
@@ -377,7 +384,9 @@ impl<'a> PlanBuilder<'a> {
                     continue;
                 };
                 for (candidate_op_id, candidate_op) in deps {
-                    if frontier.iter().any(|(op_id, _)| op_id == candidate_op_id) {
+                    if scheduled_ops.contains(candidate_op_id)
+                        || frontier.iter().any(|(op_id, _)| op_id == candidate_op_id)
+                    {
                         continue;
                     }
 
